@@ -95,4 +95,10 @@ CounterNeverRewinds == [][~CntLt(m'.sess.up, m.sess.up)]_mcvars
 
 Val2(c) == c[1] * WireMod + c[2]
 Bound == silent <= AdrLimit + 3 * AdrDelay + 1 /\ Val2(m.sess.up) <= 9
+
+\* --- the same exploration with the REAL constants (ADR_ACK_LIMIT 64, ADR_ACK_DELAY 32, 16-bit wire counter):
+\* the frame counters themselves play no part in the header bits and the back-off, so they are hidden from the
+\* fingerprint; the silent run is followed until every data rate of the region has been stepped through.
+RealView == <<[m EXCEPT !.sess.up = CntZero, !.sess.down = <<>>], silent, confOwed, hdr, exp, drAuto>>
+BoundReal == silent <= AdrLimit + 7 * AdrDelay + 1
 =============================================================================
